@@ -155,8 +155,20 @@ NOTES = {
  'C11-non-finite-error-resets-controller': 'CommandPID resets itself when the error is not finite (overflowing difference, or a NaN / inf reading): a present sample yields no output and the warm-up starts over',
  'C13-axle-reads-own-slot-of-following-terminal': 'Axle takes the OWN slot instead of the command reading for terminals that follow a command getter: a newer command on that terminal\'s coupling is ignored',
  'C15-set-time-exclusive-clock-borrow': 'GetterFromHistory::set_time reads the clock through an exclusive borrow: panics if the caller still holds its own read-only view of the shared clock',
+ 'C02-expirer-clamps-negative-age': 'Expirer clamps a negative data age to zero ("no age yet"): wrong only for NEGATIVE expiry limits, where a datum stamped far enough ahead of the clock must pass',
+ 'C12-maf-evicts-by-age-difference': 'moving average evicts by `now - oldest >= window` instead of `oldest <= now - window`: two consecutive stamps more than i64::MAX ns apart overflow (panic / negative weights)',
+ 'C16-static-lock-macros-lazy-init-in-unsafe': 'static_rw_lock_reference! / static_mutex_reference! initialise lazily inside their own `unsafe` block: the caller\'s initial-value expression is compiled in an unsafe context',
+ 'C20-encoder-updates-terminal-after-writing': 'encoder wrapper refreshes its terminal AFTER writing the reading: if that terminal follows a state getter, the followed state overwrites the reading',
 }
 HISTORY = {
+ 'C02-expirer-clamps-negative-age': 'MISSED at both tiers: expiry limits were 0 .. i64::MAX. The random plans now also draw negative limits (-1, -1000, -5 s), with the clock placed just before / at / after `stamp + limit` as for the others. '
+   'Caught at quick tier since.',
+ 'C12-maf-evicts-by-age-difference': 'MISSED at both tiers: histories only moved forward from one start, so two consecutive stamps were never more than i64::MAX ns apart. 3 % of the moving-average histories are now "eras": the first half '
+   'around -2^62, the second around +2^62 (every stamp and every `stamp - window` representable, the distance between the halves not). Caught at quick tier since (`C12|panic|ma_f`).',
+ 'C16-static-lock-macros-lazy-init-in-unsafe': 'MISSED at both tiers: the negative compile probes covered `to_dyn!` and the routes from the unsafe enum only. Three more probes hand an initial value that dereferences a raw pointer to '
+   '`static_reference!`, `static_rw_lock_reference!` and `static_mutex_reference!` from a crate without `unsafe`; each must be rejected with E0133. Caught at quick tier since.',
+ 'C20-encoder-updates-terminal-after-writing': 'MISSED at both tiers: a wrapper whose own terminal also follows a getter was not judged ("unmodelled follower"). The encoder wrapper is now modelled with a following terminal (a sixth of the '
+   'encoder runs): the followed state is pulled into the slot when the wrapper refreshes its terminal, i.e. before a present reading is written and instead of it only when the encoder delivers nothing. Caught at quick tier since.',
  'C08-geartrain-fma-libm-arm-slip': 'caught by C19/quick (the alloc + libm build diverges) but MISSED by C08: the property batches ran in the checked std build and the shipped release build only. Every simulator property now runs '
    'its batch through two more simulators: rrtk as alloc + libm (no std), and rrtk as std + dim_check_release compiled without debug assertions. Caught by C08/quick since.',
  'C10-a2s-unit-check-in-debug-assert': 'MISSED at both tiers (C19 too): no build had unit checking ON and debug assertions OFF - the one documented configuration where the two disagree. `variants/stdrelease_dim` is that build (twelfth in '
